@@ -133,8 +133,19 @@ CLAIMED['C12'] = dict(
     technique='static analysis: HIR control-dependence (guard) rules + sibling chunk-expression agreement + operation / narrowing profiles against the reference tree',
     design_ref='DESIGN.md Part I §I.3 C12 and §I.4 (what is not decided)')
 
+CLAIMED['C13'] = dict(
+    text='PARTIAL claim — the structural clauses of an algebraic property. Decided from HIR and the call graph: (R1) identity points never reach the line-table code '
+         '(blst_miller_loop_lines only in the non-identity arm of a test of BOTH points — a prepared identity has an empty line table, so this is also the memory-safety '
+         'condition of the raw-pointer read; blst_precompute_lines only for a non-identity point) — the clause "e(P, Q) is the identity iff P or Q is"; (R2) every pairing '
+         'entry point (Engine::pairing, both pairing_with) reaches the one core bls_pairing::pairing and nothing else calls blst_miller_loop — the clause "consistent across '
+         'entry points"; (R3) a Gt value is a Miller loop followed by exactly one final exponentiation; (R4) the neutral Miller-loop value is Fp12::ONE (empty product, identity '
+         'pairs); N1/N2 profiles of bls_pairing.rs, gt.rs, fp12.rs, g2.rs, bls12_381/mod.rs, kzg/msm.rs. NOT decided, and not claimed: bilinearity and non-degeneracy on '
+         'non-identity points (values computed inside blst), the Fp12 arithmetic behind Gt, and the BN254 dev-curve engine (generated by an external macro crate).',
+    note=STATIC_NOTE + ' The algebraic clauses of C13 (bilinearity, non-degeneracy) are explicitly out of reach of this technique; see DESIGN.md §I.4.',
+    technique='static analysis: HIR control-dependence (guard polarity) rules + call-graph routing of sibling entry points + must-call order + operation / narrowing profiles',
+    design_ref='DESIGN.md Part I §I.3 C13 and §I.4 (what is not decided)')
+
 NOT_APPLICABLE = {
-    'C13': 'bilinearity / non-degeneracy / product formula are algebraic facts about blst outputs; nothing in the shape of the wrappers decides them',
 }
 # properties still being built are listed not-applicable-yet until their check exists
 for _p, _why in {
